@@ -3,15 +3,17 @@ package main
 import (
 	"fmt"
 	"go/ast"
+	"go/token"
 	"strings"
 	"verif/factgen/fg"
 )
 
-// C23: the three source shapes behind the role-assignment findings, as the Lean model encodes them:
-//   - applyAddNode / applyUpdateNode replace the whole node record (`f.nodes[p.Node.ID] = &p.Node`)
-//   - applyPromoteWriter assigns `f.primaryWriterID = p.NodeID` BEFORE its `if !exists { return … }`
-//   - applyRemoveNode never touches f.primaryWriterID
-//   - handleJoinRequest builds the NodeInfo it proposes without a WriterState field
+// C23: the source shapes the role-assignment theorems rest on, as the Lean model encodes them:
+//   - applyAddNode / applyUpdateNode keep the recorded writer state of an existing id and never let a
+//     new id come in marked "primary" (both before `f.nodes[p.Node.ID] = &p.Node`)
+//   - applyPromoteWriter's `if !exists { return … }` precedes every mutation
+//   - applyRemoveNode clears f.primaryWriterID when it removes that node
+//   - handleJoinRequest builds the NodeInfo it proposes without a WriterState field (informational)
 func main() { fg.Main("C23", c23) }
 
 func c23(repo string, out *fg.Out) error {
@@ -19,63 +21,95 @@ func c23(repo string, out *fg.Out) error {
 	if err != nil {
 		return err
 	}
-	replaces := func(name string) (bool, error) {
+	// AddNode/UpdateNode: the record is stored with `f.nodes[p.Node.ID] = &p.Node`, and BEFORE that
+	// store the payload's writer state is overwritten: `p.Node.WriterState = old.WriterState` for an
+	// existing id, `p.Node.WriterState = ""` when a new id comes in marked "primary".
+	keeps := func(name string) (bool, error) {
 		f, fd := fg.FindFunc(files, "ClusterFSM", name)
 		if fd == nil {
 			return false, fmt.Errorf("%s not found", name)
 		}
-		found := false
+		store, keepOld, clearNew := token.NoPos, token.NoPos, token.NoPos
 		ast.Inspect(fd.Body, func(n ast.Node) bool {
-			if as, ok := n.(*ast.AssignStmt); ok && len(as.Lhs) == 1 && len(as.Rhs) == 1 {
-				if f.Text(as.Lhs[0]) == "f.nodes[p.Node.ID]" && f.Text(as.Rhs[0]) == "&p.Node" {
-					found = true
+			switch x := n.(type) {
+			case *ast.AssignStmt:
+				if len(x.Lhs) == 1 && len(x.Rhs) == 1 {
+					l, r := f.Text(x.Lhs[0]), f.Text(x.Rhs[0])
+					if l == "f.nodes[p.Node.ID]" && r == "&p.Node" {
+						store = x.Pos()
+					}
+					if l == "p.Node.WriterState" && r == "old.WriterState" {
+						keepOld = x.Pos()
+					}
+				}
+			case *ast.IfStmt:
+				if f.Text(x.Cond) == `p.Node.WriterState == "primary"` && len(x.Body.List) == 1 && f.Text(x.Body.List[0]) == `p.Node.WriterState = ""` {
+					clearNew = x.Pos()
 				}
 			}
 			return true
 		})
-		return found, nil
+		if store == token.NoPos {
+			return false, fmt.Errorf("%s: `f.nodes[p.Node.ID] = &p.Node` not found", name)
+		}
+		return keepOld != token.NoPos && clearNew != token.NoPos && keepOld < store && clearNew < store, nil
 	}
-	addRep, err := replaces("applyAddNode")
+	addKeeps, err := keeps("applyAddNode")
 	if err != nil {
 		return err
 	}
-	updRep, err := replaces("applyUpdateNode")
+	updKeeps, err := keeps("applyUpdateNode")
 	if err != nil {
 		return err
 	}
-	// promote: position of the primaryWriterID assignment vs. the `if !exists { return` statement
+	// PromoteWriter: the `if !exists { … return … }` guard precedes every mutation
+	// (any assignment to f.primaryWriterID or to a .WriterState field).
 	pf, pd := fg.FindFunc(files, "ClusterFSM", "applyPromoteWriter")
 	if pd == nil {
 		return fmt.Errorf("applyPromoteWriter not found")
 	}
-	assignPos, notFoundPos := -1, -1
-	for i, st := range pd.Body.List {
-		switch x := st.(type) {
-		case *ast.AssignStmt:
-			if len(x.Lhs) == 1 && pf.Text(x.Lhs[0]) == "f.primaryWriterID" {
-				assignPos = i
-			}
+	guard, firstMut := token.NoPos, token.NoPos
+	ast.Inspect(pd.Body, func(n ast.Node) bool {
+		switch x := n.(type) {
 		case *ast.IfStmt:
-			if pf.Text(x.Cond) == "!exists" && len(x.Body.List) == 1 {
-				if _, ok := x.Body.List[0].(*ast.ReturnStmt); ok {
-					notFoundPos = i
+			if pf.Text(x.Cond) == "!exists" && guard == token.NoPos {
+				for _, st := range x.Body.List {
+					if _, ok := st.(*ast.ReturnStmt); ok {
+						guard = x.Pos()
+					}
+				}
+			}
+		case *ast.AssignStmt:
+			for _, l := range x.Lhs {
+				t := pf.Text(l)
+				if t == "f.primaryWriterID" || strings.HasSuffix(t, ".WriterState") {
+					if firstMut == token.NoPos || x.Pos() < firstMut {
+						firstMut = x.Pos()
+					}
 				}
 			}
 		}
+		return true
+	})
+	if firstMut == token.NoPos {
+		return fmt.Errorf("applyPromoteWriter: no assignment to f.primaryWriterID / .WriterState found")
 	}
-	if assignPos < 0 {
-		return fmt.Errorf("applyPromoteWriter: top-level `f.primaryWriterID = …` not found")
-	}
-	// a repaired version that validates existence first has no top-level `if !exists` after the
-	// assignment; report the order either way
-	setsBefore := notFoundPos > assignPos
-	// remove: any mention of primaryWriterID?
+	validatesFirst := guard != token.NoPos && guard < firstMut
+	// RemoveNode: `if f.primaryWriterID == p.NodeID { f.primaryWriterID = "" }`
 	rf, rd := fg.FindFunc(files, "ClusterFSM", "applyRemoveNode")
 	if rd == nil {
 		return fmt.Errorf("applyRemoveNode not found")
 	}
-	removeTouches := strings.Contains(rf.Text(rd.Body), "primaryWriterID")
-	// join: composite literal raft.NodeInfo{…} in handleJoinRequest without WriterState
+	removeClears := false
+	ast.Inspect(rd.Body, func(n ast.Node) bool {
+		if x, ok := n.(*ast.IfStmt); ok && rf.Text(x.Cond) == "f.primaryWriterID == p.NodeID" &&
+			len(x.Body.List) == 1 && rf.Text(x.Body.List[0]) == `f.primaryWriterID = ""` {
+			removeClears = true
+		}
+		return true
+	})
+	// join: composite literal raft.NodeInfo{…} in handleJoinRequest without WriterState (informational:
+	// with the fixes above a rejoin can no longer change the recorded assignment)
 	cfiles, err := fg.ParseDir(repo, "internal/cluster")
 	if err != nil {
 		return err
@@ -101,16 +135,16 @@ func c23(repo string, out *fg.Out) error {
 	}
 	w := &out.Lean
 	fmt.Fprintf(w, "namespace Arc.Generated.C23\n")
-	fmt.Fprintf(w, "def addNodeReplacesRecord : Bool := %v\n", addRep)
-	fmt.Fprintf(w, "def updateNodeReplacesRecord : Bool := %v\n", updRep)
-	fmt.Fprintf(w, "def promoteSetsPrimaryBeforeNotFound : Bool := %v\n", setsBefore)
-	fmt.Fprintf(w, "def removeNodeTouchesPrimary : Bool := %v\n", removeTouches)
+	fmt.Fprintf(w, "def addNodeKeepsWriterState : Bool := %v\n", addKeeps)
+	fmt.Fprintf(w, "def updateNodeKeepsWriterState : Bool := %v\n", updKeeps)
+	fmt.Fprintf(w, "def promoteValidatesBeforeMutating : Bool := %v\n", validatesFirst)
+	fmt.Fprintf(w, "def removeNodeClearsPrimary : Bool := %v\n", removeClears)
 	fmt.Fprintf(w, "def joinRequestSetsWriterState : Bool := %v\n", joinSets)
 	fmt.Fprintf(w, "end Arc.Generated.C23\n")
-	out.JSON["addNodeReplacesRecord"] = addRep
-	out.JSON["updateNodeReplacesRecord"] = updRep
-	out.JSON["promoteSetsPrimaryBeforeNotFound"] = setsBefore
-	out.JSON["removeNodeTouchesPrimary"] = removeTouches
+	out.JSON["addNodeKeepsWriterState"] = addKeeps
+	out.JSON["updateNodeKeepsWriterState"] = updKeeps
+	out.JSON["promoteValidatesBeforeMutating"] = validatesFirst
+	out.JSON["removeNodeClearsPrimary"] = removeClears
 	out.JSON["joinRequestSetsWriterState"] = joinSets
 	return nil
 }
